@@ -182,4 +182,5 @@ def _strat_commutes_from_matrix(
         return NotImplemented
     if v1.shape != v2.shape:
         return None
-    return linalg.matrix_commutes(v1, v2, atol=atol)
+    # (the caller asks for an absolute tolerance: no relative one on top of it)
+    return linalg.matrix_commutes(v1, v2, rtol=0, atol=atol)
